@@ -42,6 +42,10 @@ func (s *server) pushLog(evt event.Update, pid peer.ID) (err error) {
 		}
 	}()
 
+	if simEnabled && simActive() {
+		return simPushLog(s, evt, pid)
+	}
+
 	client, err := s.dial(pid) // grpc dial over P2P stream
 	if err != nil {
 		return NewErrPushLog(err)
